@@ -565,3 +565,37 @@ func ParseInteger(der []byte) (*big.Int, error) {
 	}
 	return v, nil
 }
+
+// SequenceSpan reads the identifier and length octets of a DER SEQUENCE at the start of b
+// (strict DER as golang.org/x/crypto/cryptobyte reads it: tag 0x30, definite length, minimal
+// length octets, at most four of them) and returns the number of octets that header and
+// content span together. b may be a prefix of the data: only the header is looked at.
+// ok is false when b does not start with such a header.
+func SequenceSpan(b []byte) (span int64, ok bool) {
+	if len(b) < 2 || b[0] != tagSequence {
+		return 0, false
+	}
+	n := int64(b[1])
+	if n&0x80 == 0 {
+		return 2 + n, true
+	}
+	k := int(n & 0x7f)
+	if k == 0 || k > 4 || len(b) < 2+k {
+		return 0, false
+	}
+	n = 0
+	for i := 0; i < k; i++ {
+		n = n<<8 | int64(b[2+i])
+	}
+	if n < 0x80 || (k > 1 && n>>(8*(uint(k)-1)) == 0) {
+		return 0, false // not minimal
+	}
+	return int64(2+k) + n, true
+}
+
+// IsOneSequence reports whether b is exactly one DER SEQUENCE element (header as in
+// SequenceSpan, content to the last octet of b, whatever the content is).
+func IsOneSequence(b []byte) bool {
+	span, ok := SequenceSpan(b)
+	return ok && span == int64(len(b))
+}
